@@ -149,6 +149,7 @@ def run_case(acc, c: dict, monitors: List[Callable], nontrivial: Optional[Callab
     ref0 = None if (warm or c.get("deferred_setup")) else prog.ref_run(sel, None, debug_on)
     state = {"d": None, "ns": None, "pre": None}
     cfg.RUN_DEBUG_NODES = debug_on
+    cfg.TAWAZI_PROFILE_ALL_NODES = bool(c.get("profile", False))
 
     conf = c.get("conf")
     if conf:
@@ -254,6 +255,7 @@ def run_case(acc, c: dict, monitors: List[Callable], nontrivial: Optional[Callab
                 acc.stall(res)
     finally:
         cfg.RUN_DEBUG_NODES = False
+        cfg.TAWAZI_PROFILE_ALL_NODES = False
     s, t = sc.counts()
     acc.states += s
     acc.transitions += t
@@ -271,6 +273,7 @@ def replay_case(c: dict, monitors: List[Callable], prefix, prog: Optional[GProg]
     selection = c.get("sel")
     warm, debug_on, batch_order = c.get("warm", 0), c.get("debug_on", False), c.get("batch", False)
     cfg.RUN_DEBUG_NODES = debug_on
+    cfg.TAWAZI_PROFILE_ALL_NODES = bool(c.get("profile", False))
     try:
         reconf = c.get("reconf")
         if reconf:
@@ -310,4 +313,5 @@ def replay_case(c: dict, monitors: List[Callable], prefix, prog: Optional[GProg]
         viols = [v for m in monitors for v in m(view)]
     finally:
         cfg.RUN_DEBUG_NODES = False
+        cfg.TAWAZI_PROFILE_ALL_NODES = False
     return res, viols
